@@ -5,7 +5,7 @@ def runtimeHashLoopIter : String := "IterRuntimeFiles"
 def runtimeHashLoopWrites : List String := ["hash", "name:dest", "nul"]
 def runtimeHashLoopVars : Nat := 2
 def runtimeHashLoopAbsoluteNames : String := "false"
-def ruleHashRuntimeWrites : List String := ["each:AllData():String", "each:Test.Outputs:raw", "hashOptionalBool:Test.Sandbox", "write:GetTestCommand(state)", "write:Test.ArgsPlaceholder"]
+def ruleHashRuntimeWrites : List String := ["each:AllData():String", "each:Test.Outputs:raw", "hashOptionalBool:Test.Sandbox", "hashBool:Test.NoOutput", "write:GetTestCommand(state)", "write:Test.ArgsPlaceholder"]
 def iterRuntimeFilesOrder : List String := ["Outputs", "OwnRuntimeDeps", "AllData", "RuntimeDepsOfPrevious", "AllTestTools", "RuntimeDepsOfPrevious", "AllDebugData", "RuntimeDepsOfPrevious", "AllDebugTools", "RuntimeDepsOfPrevious"]
 def iterRuntimeFilesDedupBy : String := "dest"
 def needToRunConds : List String := ["force", "state-and-results"]
